@@ -375,9 +375,38 @@ func c18All(env *core.Env, c *c18Case) core.Verdict {
 	return v
 }
 
+// c18Stdin: generate gives the same result for a file argument and for the same bytes on stdin, whatever the bytes are.
+func c18Stdin(env *core.Env, c *c18Case) core.Verdict {
+	root := emptyRoot(env)
+	defer rmCase(root)
+	tree := sut.Tree{"regex-assembly/toolchain.yaml": crsToolchainYAML, "regex-assembly/include/inc1.ra": "included1\n"}
+	names := []string{"932100", "932100.ra", "932100-chain1", "932100-chain255.ra"}
+	v := core.Verdict{Status: core.Held, Nontrivial: true, Counts: map[string]int{}}
+	for i, content := range c.Args {
+		arg := names[i%len(names)]
+		file := strings.TrimSuffix(arg, ".ra") + ".ra"
+		tree["regex-assembly/"+file] = content
+		if err := tree.Write(root); err != nil {
+			return core.Incon("cannot write tree: %v", err)
+		}
+		g1 := cli(env, root, nil, "regex", "generate", arg)
+		g2 := cli(env, root, []byte(content), "regex", "generate", "-")
+		if g1.Class() == sut.ClassFault || g2.Class() == sut.ClassFault {
+			continue // C19's business
+		}
+		if (g1.Exit == 0) != (g2.Exit == 0) || string(g1.Stdout) != string(g2.Stdout) {
+			return core.Viol("generate-file-vs-stdin", "generate %s and generate - on the same %d bytes differ\ncontent=%s\nfile : %s\nstdin: %s", arg, len(content), core.Q(content), describe(g1), describe(g2))
+		}
+		v.Counts["contents_compared"]++
+	}
+	return v
+}
+
 func c18Check(env *core.Env, cc core.Case) core.Verdict {
 	c := cc.(*c18Case)
 	switch c.Kind {
+	case "stdin":
+		return c18Stdin(env, c)
 	case "all":
 		return c18All(env, c)
 	case "args":
@@ -434,6 +463,27 @@ func c18Cases(env *core.Env, rng *rand.Rand) []core.Case {
 		&c18Case{Kind: "all", Args: []string{"932100-chain0256.ra", "932100-chain256.ra"}},
 		&c18Case{Kind: "all", Args: []string{"932100-chain0256.ra", "932100-chain65536.ra"}},
 		&c18Case{Kind: "all", Args: []string{"932100-chain0256.ra", "932100-chain256.ra", "932100-chain65536.ra"}})
+	// file argument versus stdin on awkward contents
+	bom := "\xef\xbb\xbf"
+	contents := []string{"foo\nbar\n", bom + "foo\nbar\n", bom + "##!+ i\nfoo\nbar\n", bom + "##! comment\nfoo\n", "foo\r\nbar\r\n", "##!+ i\r\nfoo\r\n", "foo\nbar", "", "\n", "\n\nfoo\n\n", "  foo  \n\tbar\t\n",
+		"foo" + bom + "\nbar\n", "\xff\xfefoo\n", "foo\x00bar\n", "##!> include inc1\nfoo\n", "##!> cmdline unix\n  ls\n##!<", "foo\n\x1a", "\ufeff", bom, "foo \nbar  ", "##!^ \\b\nfoo\n##!$ x", "a\n" + strings.Repeat("b", 5000) + "\nc"}
+	for i := 0; i < len(contents); i += 6 {
+		cs = append(cs, &c18Case{Kind: "stdin", Args: contents[i:min(i+6, len(contents))]})
+	}
+	if env.Thorough() {
+		frag := []string{bom, "foo", "bar", "\n", "\r\n", "##!+ i", "##! c", " ", "\t", "|", "[a-c]", "\x00", "é", "##!> assemble", "##!<", "##!=>"}
+		for i := 0; i < 200; i++ {
+			var batch []string
+			for k := 0; k < 6; k++ {
+				var sb strings.Builder
+				for j := 1 + rng.Intn(8); j > 0; j-- {
+					sb.WriteString(frag[rng.Intn(len(frag))])
+				}
+				batch = append(batch, sb.String())
+			}
+			cs = append(cs, &c18Case{Kind: "stdin", Args: batch})
+		}
+	}
 	// root resolution
 	n := env.N(150, 3000)
 	for i := 0; i < n; i++ {
@@ -462,7 +512,7 @@ func init() {
 		ID:    "C18",
 		Level: "fault_enumeration",
 		Rule: "(1) grammar table, enumerated: arguments 932100-chainK for every K in 0..300 (every seventh with .ra), offsets at and beyond uint8/uint16/uint32/uint64 (2^64-1, 2^64, 2^64+1, 20 and 23 digits), leading zeros, ids of 5/7 digits, trailing junk, .raa/.ra.ra, blanks, signs, upper case, non-ASCII digits, path-like forms, the empty string (thorough: plus 1500 PRNG arguments built from grammar fragments). The tree holds a rule with a chain of 300, and every assembly file and every chain position carries a distinct token, so the line that `update ARG` changes and the text it writes identify the resolved (file, rule id, offset); rejected arguments must exit non-zero and change nothing; `generate ARG` must equal `generate -` on the same bytes; compare must resolve like update. " +
-			"(1b) update --all and compare --all on the same tree (with and without the files whose offset is above 255): such files make the run fail and their content never lands on any rule, files outside the grammar are skipped. (2) `format ARG` with rule ids, include names and near misses: exactly the file predicted by the grammar model changes. (3) root resolution: nested roots with distinct content and distinct toolchain.yaml, -d at depth 0..4 below or beside, relative/absolute, non-existent tails, inside regex-assembly, and no -d with various working directories; the printed regex identifies which root and which configuration were used. Non-trivial = every args/format batch and every root case with >= 2 roots.",
+			"(1b) update --all and compare --all on the same tree (with and without the files whose offset is above 255): such files make the run fail and their content never lands on any rule, files outside the grammar are skipped. (1c) `generate ARG` against `generate -` on the same bytes for awkward contents (byte order mark at the start and inside, CRLF, missing final newline, empty, NUL, invalid UTF-8, directives on the first line). (2) `format ARG` with rule ids, include names and near misses: exactly the file predicted by the grammar model changes. (3) root resolution: nested roots with distinct content and distinct toolchain.yaml, -d at depth 0..4 below or beside, relative/absolute, non-existent tails, inside regex-assembly, and no -d with various working directories; the printed regex identifies which root and which configuration were used. Non-trivial = every args/format batch and every root case with >= 2 roots.",
 		Cases:         c18Cases,
 		Check:         c18Check,
 		Decode:        decoder[c18Case](),
